@@ -6,7 +6,7 @@ use crate::gen::*;
 use crate::json::*;
 use crate::oracle::{self, Quirks};
 use crate::src::Src;
-use crate::vq::{V1, V2, V3};
+use crate::vq::{V1, V2, V3, V4};
 use jsonpath_rust::JsonPath;
 use serde_json::{json, Value};
 
@@ -331,6 +331,59 @@ fn random_extension_views(src: &mut Src, obs: &mut Obs) -> Res {
     Ok(())
 }
 
+/// a view that stores equal sub-documents once and shares them (V4): which nodes a query selects must not
+/// depend on how the view lays its nodes out in memory.  Documents get a copy of one of their own
+/// containers grafted in at another place, so that shared containers with containers inside are the rule.
+fn random_shared_nodes(src: &mut Src, obs: &mut Obs) -> Res {
+    let cfg = cfg15();
+    let mut doc = gen_doc(src, &cfg);
+    // graft: copy a container that has a container inside to the end of the root (or under a new name)
+    let locs = doc.all_locs();
+    let cands: Vec<Loc> = locs.iter().filter(|l| !l.is_empty() && doc.get_loc(l).map_or(false, |n| n.depth() >= 2)).cloned().collect();
+    if !cands.is_empty() {
+        let l: Loc = src.pick(&cands[..]).clone();
+        let copy = doc.get_loc(&l).cloned().unwrap_or(J::Null);
+        let times = 1 + src.below(2);
+        match &mut doc {
+            J::Arr(a) => (0..times).for_each(|_| a.push(copy.clone())),
+            J::Obj(m) => (0..times).for_each(|i| m.push((format!("dup{}", i), copy.clone()))),
+            _ => {}
+        }
+    }
+    let doc = doc.sorted_by_name();
+    let q = gen_query(src, &doc, &cfg);
+    let text = render_plain(&q);
+    let v4 = V4::from_j(&doc);
+    let shared = v4.shared_containers();
+    obs.eval(2);
+    if shared > 0 {
+        obs.label("document-with-shared-containers");
+    }
+    let rv = run_value(&doc.to_value(), &text);
+    let r4: Result<Rows, String> = match guarded(|| v4.query_with_path(&text)) {
+        Ok(Ok(r)) => Ok(r.into_iter().map(|x| (x.clone().path(), x.val().to_j())).collect()),
+        Ok(Err(e)) => Err(format!("Err({})", e.to_string().lines().next().unwrap_or(""))),
+        Err(p) => Err(format!("panic: {}", p)),
+    };
+    if let Ok(rows) = &rv {
+        if shared > 0 && !rows.is_empty() && interesting(&q) {
+            obs.nontrivial(&(text.as_str(), doc.text()), || json!({"query": text, "doc": doc.to_value(), "shared_containers": shared, "results": rows.len()}));
+        }
+    }
+    let same = match (&rv, &r4) {
+        (Ok(a), Ok(b)) => rows_equal(a, b),
+        (Err(a), Err(b)) => a.starts_with("Err") && b.starts_with("Err"),
+        _ => false,
+    };
+    if !same {
+        return Err(Failure::new(
+            "the same query gives different results on serde_json::Value and on a faithful Queryable type that stores equal sub-documents once and shares them",
+            json!({"query": text, "doc": doc.to_value(), "shared_containers": shared, "on_value": show(&rv), "on_other_type": show(&r4)}),
+        ));
+    }
+    Ok(())
+}
+
 /// a float literal beyond the range of f64 reaches the data type through `From<f64>`: whatever the engine
 /// hands over, it must be the same for every type (V1 keeps an infinity it is given, V2 - like
 /// serde_json - turns it into its null)
@@ -622,6 +675,7 @@ pub fn prop() -> Prop {
         subs: vec![
             Sub { name: "random-diff", kind: Kind::Random { f: random_diff, quick: 240_000, thorough: 4_800_000, len: 500 } },
             Sub { name: "random-object-equality", kind: Kind::Random { f: random_object_equality, quick: 64_000, thorough: 1_280_000, len: 300 } },
+            Sub { name: "random-shared-nodes", kind: Kind::Random { f: random_shared_nodes, quick: 120_000, thorough: 2_400_000, len: 500 } },
             Sub { name: "random-extension-views", kind: Kind::Random { f: random_extension_views, quick: 120_000, thorough: 2_400_000, len: 500 } },
             Sub { name: "random-number-views", kind: Kind::Random { f: random_number_views, quick: 60_000, thorough: 1_200_000, len: 64 } },
             Sub { name: "random-one-pair-get", kind: Kind::Random { f: random_one_pair_get, quick: 120_000, thorough: 2_400_000, len: 500 } },
